@@ -62,7 +62,11 @@ def universe(shape, idx):
     if shape["universe"] == "words":
         pats = WORD_SETS[idx]
         return (example.AvoidingWithPrefix("", list(pats), ["a", "b"]), example.pack, lambda n: word_truth(pats, n), example.Word)
-    t = e2e.tables(shape["S"])[idx]
+    if shape["universe"] == "reg-mixed":
+        # first index: a two-state table; second index: a two-state table on a doubled (redundant) automaton
+        t = (e2e.tables(2) if shape["_side"] == 0 else e2e.tables("2d"))[idx]
+    else:
+        t = e2e.tables(shape["S"])[idx]
     popts = e2e.OPTSETS[shape.get("opt", "plain")][0]
     return (R.start_class(t), R.mkpack(popts), lambda n: R.words(t, n), R.W)
 
@@ -74,6 +78,57 @@ def find_spec(shape, idx):
         return s.auto_search(), truth, mk
     except SpecificationNotFound:
         return None, truth, mk
+
+
+def iso_reference(s1, s2):
+    """Independent isomorphism test: greatest fixed point of 'same kind of rule, and the non-empty children can be paired
+    so that every pair is related'; equivalence rules are skipped on both sides; atoms are related iff they have the same size."""
+    def resolve(spec, c):
+        seen = set()
+        while True:
+            r = spec.rules_dict[c]
+            if r.children and r.is_equivalence() and c not in seen:
+                seen.add(c)
+                c = r.children[0]
+                continue
+            return c, r
+
+    def kids(r):
+        return [ch for ch in r.children if not ch.is_empty()]
+
+    def kind(r):
+        if not r.children:
+            return ("leaf",)
+        con = r.constructor
+        return (type(con).__name__,)
+
+    nodes1 = {resolve(s1, c)[0] for c in s1.rules_dict}
+    nodes2 = {resolve(s2, c)[0] for c in s2.rules_dict}
+    rel = set()
+    for a in nodes1:
+        ra = s1.rules_dict[a]
+        for b in nodes2:
+            rb = s2.rules_dict[b]
+            if kind(ra) != kind(rb) or len(kids(ra)) != len(kids(rb)):
+                continue
+            if not ra.children:
+                if not (a.is_atom() and b.is_atom() and a.minimum_size_of_object() == b.minimum_size_of_object()):
+                    continue
+            else:
+                if not ra.constructor.equiv(rb.constructor)[0]:
+                    continue
+            rel.add((a, b))
+    changed = True
+    while changed:
+        changed = False
+        for (a, b) in list(rel):
+            ka = [resolve(s1, x)[0] for x in kids(s1.rules_dict[a])]
+            kb = [resolve(s2, x)[0] for x in kids(s2.rules_dict[b])]
+            ok = any(all((x, y) in rel for x, y in zip(ka, perm)) for perm in itertools.permutations(kb))
+            if not ok:
+                rel.discard((a, b))
+                changed = True
+    return (resolve(s1, s1.root)[0], resolve(s2, s2.root)[0]) in rel
 
 
 def outcome(a, b):
@@ -129,6 +184,9 @@ def scenario(shape, i, j):
             if o is not True:
                 raise Bad("isomorphism test is not reflexive on the %s specification: %r" % (name, o))
         core.observe("pairs")
+        ref = iso_reference(sa, sb)
+        if isinstance(o_ab, bool) and o_ab != ref:
+            raise Bad("isomorphism test answers %r, the reference (greatest fixed point of child pairings) says %r" % (o_ab, ref))
         bij = Bijection.construct(sa, sb) if o_ab is True else None
         if o_ab is not True and not isinstance(o_ab, str):
             if Bijection.construct(sa, sb) is not None:
